@@ -207,6 +207,39 @@ def run(eng, R):
                             multi = True
             R.ob("B3d", f.qualname, not in_loop and not multi, eng.where(f), "%s may evaluate the node function more than once per update" % f.qualname)
 
+    # ---- B8: update() leaves no stale child behind (dependency-only children included)
+    R.rule("B8", "update() of a node whose children are not all function parameters brings every stale, non-frozen child up to date before it clears its own flag "
+                 "(otherwise a fresh node sits above a stale child and later marks of that child are swallowed)", 1)
+    for cls in family:
+        f = cls.methods.get("update")
+        if f is None:
+            continue
+        if not any("_parameters" in {s.path for s in eng.eff.summary(cls, ff).sites} for c2, ff in eng.functions_of_family(cls) if c2 is cls):
+            continue
+        g = eng.cfg(f)
+        ok = False
+        for n in g.nodes:
+            if n.kind != "for":
+                continue
+            it = n.expr
+            over_children = (isinstance(it, ast.Call) and isinstance(it.func, ast.Attribute) and it.func.attr == "get_children" and is_self(it.func.value)) or self_attr(it) == "_children"
+            if not over_children or not isinstance(n.stmt.target, ast.Name):
+                continue
+            tv = n.stmt.target.id
+            for c in ast.walk(n.stmt):
+                if isinstance(c, ast.Call) and isinstance(c.func, ast.Attribute) and c.func.attr == "update" and isinstance(c.func.value, ast.Name) and c.func.value.id == tv:
+                    nf = common.conj_normal_form([(t, pol) for t, pol in common.guard_conditions_inside(n.stmt, c)])
+                    names = {a.split(".")[-1] for a, _ in nf}
+                    if not nf or all((("stale" in a and pol) or ("frozen" in a and not pol)) for a, pol in nf):
+                        ok = True
+                if isinstance(c, ast.Attribute) and c.attr == "value" and isinstance(c.value, ast.Name) and c.value.id == tv and not common.guard_conditions_inside(n.stmt, c):
+                    ok = True
+            if ok:
+                clears = [m for m in g.stmt_nodes() if m.kind == "stmt" and isinstance(m.stmt, ast.Assign) and any(self_attr(t) == "_stale" for t in m.stmt.targets)]
+                ok = all(g.dominated_by(m.id, lambda k, nid=n.id: k.id == nid)[0] for m in clears)
+        R.ob("B8", f.qualname, ok, eng.where(f), "%s evaluates its parameters but leaves dependency-only children stale: the node becomes fresh above a stale child, "
+             "so a later mark_for_update of that child stops there and this node keeps its cached value" % f.qualname)
+
     # ---- B6: value getter updates iff stale and not frozen ------------------------------------------
     R.rule("B6", "value getter: calls self.update() exactly under (stale and not frozen) and returns self._value", 1)
     for cls in family:
